@@ -869,3 +869,206 @@ Proof.
   - exists (k / 3). lia.
   - exists (k / 4). lia.
 Qed.
+
+(* ======================================================================================================
+   RawDataIterator
+   ====================================================================================================== *)
+Definition it_total (t : rawty) (s : iter) : Z := pixels_total t (buf_len (it_data s)).
+Definition it_ok (s : iter) : Prop := len_ok (it_data s) /\ 0 <= it_index s.
+
+Lemma total_bounds t len : 0 <= len -> 0 <= pixels_total t len <= 8 * len.
+Proof.
+  intros H. unfold pixels_total. destruct t; cbn [bits];
+    match goal with |- context [8 <=? ?a] => let b := eval vm_compute in (8 <=? a) in change (8 <=? a) with b end;
+    cbv iota; divs; lia.
+Qed.
+
+Lemma iter_next_in t alt s :
+  it_ok s -> it_index s < it_total t s ->
+  exists v, load t alt (it_data s) (it_index s) = Some v /\
+            iter_next t alt s = (Some v, It (it_data s) (it_index s + 1)).
+Proof.
+  intros [Hl Hi] H. destruct (load_in_range t alt (it_data s) (it_index s) Hl (conj Hi H)) as [v E].
+  exists v. split; auto. unfold iter_next. rewrite E. reflexivity.
+Qed.
+
+Lemma iter_next_oob t alt s :
+  0 <= it_index s -> it_total t s <= it_index s -> iter_next t alt s = (None, s).
+Proof. intros Hi H. unfold iter_next. rewrite load_oob; auto. Qed.
+
+Lemma iter_collect_spec t alt buf :
+  len_ok buf -> forall m fuel i, 0 <= i -> Z.to_nat (pixels_total t (buf_len buf) - i) = m -> (m < fuel)%nat ->
+  exists l, iter_collect t alt fuel (It buf i) = Some l /\
+            map Some l = map (load t alt buf) (range i (pixels_total t (buf_len buf))).
+Proof.
+  intros Hl. induction m as [|m IH]; intros fuel i Hi Hm Hf; (destruct fuel as [|fuel]; [lia|]); cbn [iter_collect].
+  - rewrite iter_next_oob by (cbn [it_index it_data]; unfold it_total; cbn [it_data]; lia).
+    exists []. rewrite range_nil by lia. auto.
+  - destruct (iter_next_in t alt (It buf i)) as (v & E1 & E2).
+    { split; auto. } { unfold it_total; cbn [it_data it_index]. lia. }
+    rewrite E2. cbn [it_data it_index] in *.
+    destruct (IH fuel (i + 1)) as (l & L1 & L2); try lia.
+    rewrite L1. exists (v :: l). split; [reflexivity|].
+    rewrite (range_cons i) by lia. cbn [map]. rewrite E1, L2. reflexivity.
+Qed.
+
+(* the fuel of iter_list never runs out, and the items are load(index), load(index+1), ... *)
+Lemma iter_is_loads t alt s :
+  it_ok s ->
+  exists l, iter_list t alt s = Some l /\
+            map Some l = map (load t alt (it_data s)) (range (it_index s) (it_total t s)) /\
+            Z.of_nat (length l) = Z.max 0 (it_total t s - it_index s).
+Proof.
+  intros [Hl Hi]. destruct s as [buf i]. cbn [it_data it_index] in *. unfold it_total, iter_list, iter_fuel.
+  cbn [it_data it_index].
+  destruct (iter_collect_spec t alt buf Hl _ (Datatypes.S (Z.to_nat (pixels_total t (buf_len buf) - i))) i Hi eq_refl)
+    as (l & L1 & L2); [lia|].
+  exists l. repeat split; auto.
+  rewrite <- (map_length Some), L2, map_length. apply length_range.
+Qed.
+
+Lemma map_Some_inj {A} (a b : list A) : map Some a = map Some b -> a = b.
+Proof. revert b; induction a; intros [|y b] H; cbn [map] in H; try discriminate; auto. inversion H. f_equal; auto. Qed.
+
+(* size_hint is exact (hence it brackets the number of remaining items) *)
+Lemma size_hint_exact t alt s l :
+  it_ok s -> iter_list t alt s = Some l ->
+  size_hint t s = (Z.of_nat (length l), Some (Z.of_nat (length l))).
+Proof.
+  intros Ok E. destruct (iter_is_loads t alt s Ok) as (l' & E' & _ & Len).
+  rewrite E in E'. inversion E'; subst l'. unfold size_hint, sat_sub_usize. fold (it_total t s).
+  rewrite Len. replace (Z.max (it_total t s - it_index s) 0) with (Z.max 0 (it_total t s - it_index s)) by lia.
+  reflexivity.
+Qed.
+
+Lemma size_hint_brackets t alt s l :
+  it_ok s -> iter_list t alt s = Some l ->
+  fst (size_hint t s) <= Z.of_nat (length l) /\
+  match snd (size_hint t s) with Some hi => Z.of_nat (length l) <= hi | None => True end.
+Proof. intros Ok E. rewrite (size_hint_exact t alt s l Ok E). cbn [fst snd]. lia. Qed.
+
+(* nth_error of the item list = load at the running index *)
+Lemma items_nth t alt s l k :
+  it_ok s -> iter_list t alt s = Some l -> nth_error l k = load t alt (it_data s) (it_index s + Z.of_nat k).
+Proof.
+  intros Ok E. destruct (iter_is_loads t alt s Ok) as (l' & E' & M & Len).
+  rewrite E in E'. inversion E'; subst l'. destruct Ok as [Hl Hi].
+  destruct (Z_lt_ge_dec (it_index s + Z.of_nat k) (it_total t s)) as [L|L].
+  - assert (Hk : (k < length l)%nat) by lia.
+    pose proof (f_equal (fun x => nth_error x k) M) as N. cbv beta in N.
+    rewrite !nth_error_map in N. unfold range in N.
+    rewrite (nth_error_nth_lt (range_from (it_index s) (Z.to_nat (it_total t s - it_index s))) k 0) in N
+      by (rewrite length_range_from; lia).
+    rewrite nth_range_from in N by lia. cbn [option_map] in N.
+    destruct (nth_error l k) as [x|] eqn:Ek.
+    + cbn [option_map] in N. inversion N. reflexivity.
+    + apply nth_error_None in Ek. lia.
+  - rewrite load_oob by (unfold it_total in L; lia).
+    apply nth_error_None. lia.
+Qed.
+
+Lemma sat_add_small a b : a + b <= usize_max -> sat_add_usize a b = a + b.
+Proof. unfold sat_add_usize. lia. Qed.
+
+(* nth(n): the item is load(index + n) (None beyond the end, also when the addition saturates), and the
+   iterator continues behind it *)
+Lemma nth_skips t alt s n l :
+  it_ok s -> 0 <= n -> iter_list t alt s = Some l ->
+  fst (iter_nth t alt s n) = nth_error l (Z.to_nat n) /\
+  it_ok (snd (iter_nth t alt s n)) /\ it_data (snd (iter_nth t alt s n)) = it_data s /\
+  iter_list t alt (snd (iter_nth t alt s n)) = Some (skipn (Datatypes.S (Z.to_nat n)) l) /\
+  (it_index s + n < it_total t s -> it_index (snd (iter_nth t alt s n)) = it_index s + n + 1).
+Proof.
+  intros Ok Hn E. pose proof Ok as [Hl Hi].
+  rewrite (items_nth t alt s l (Z.to_nat n) Ok E). rewrite Z2Nat.id by lia.
+  destruct (iter_is_loads t alt s Ok) as (l' & E' & M & Len).
+  rewrite E in E'. inversion E'; subst l'. clear E'.
+  pose proof (total_bounds t (buf_len (it_data s)) (buf_len_nonneg _)) as TB. fold (it_total t s) in TB.
+  unfold len_ok in Hl. unfold iter_nth.
+  destruct (Z_lt_ge_dec (it_index s + n) (it_total t s)) as [L|L].
+  - rewrite sat_add_small by lia.
+    destruct (iter_next_in t alt (It (it_data s) (it_index s + n))) as (v & E1 & E2).
+    { split; cbn [it_data it_index]; auto. lia. } { unfold it_total in *. cbn [it_data it_index]. lia. }
+    cbn [it_data it_index] in *. rewrite E2. cbn [fst snd it_data it_index].
+    split; [auto|]. split; [split; cbn [it_data it_index]; auto; lia|]. split; [reflexivity|]. split; [|auto].
+    destruct (iter_is_loads t alt (It (it_data s) (it_index s + n + 1))) as (l2 & F1 & F2 & _).
+    { split; cbn [it_data it_index]; auto. lia. }
+    rewrite F1. f_equal. apply map_Some_inj. rewrite F2. cbn [it_data it_index]. unfold it_total. cbn [it_data].
+    fold (it_total t s). rewrite <- skipn_map, M, skipn_map. f_equal.
+    rewrite (range_app (it_index s) (it_index s + n + 1) (it_total t s)) by lia.
+    replace (Datatypes.S (Z.to_nat n)) with (length (range (it_index s) (it_index s + n + 1)) + 0)%nat
+      by (pose proof (length_range (it_index s) (it_index s + n + 1)); lia).
+    rewrite skipn_app. rewrite Nat.add_0_r, skipn_all, Nat.sub_diag. reflexivity.
+  - set (j := sat_add_usize (it_index s) n).
+    assert (Hj : it_total t s <= j) by (unfold j, sat_add_usize; lia).
+    rewrite iter_next_oob by (cbn [it_index it_data]; unfold it_total in *; cbn [it_data]; lia).
+    cbn [fst snd it_data it_index].
+    split; [rewrite load_oob; auto; unfold it_total in *; lia|].
+    split; [split; cbn [it_data it_index]; auto; lia|]. split; [reflexivity|]. split; [|lia].
+    destruct (iter_is_loads t alt (It (it_data s) j)) as (l2 & F1 & F2 & F3).
+    { split; cbn [it_data it_index]; auto. lia. }
+    rewrite F1. f_equal. unfold it_total in F3. cbn [it_data it_index] in F3. fold (it_total t s) in F3.
+    rewrite skipn_all2 by lia. destruct l2; auto. cbn [length] in F3. lia.
+Qed.
+
+(* next() = nth(0) on the item list *)
+Lemma next_steps t alt s l :
+  it_ok s -> iter_list t alt s = Some l ->
+  fst (iter_next t alt s) = hd_error l /\
+  it_ok (snd (iter_next t alt s)) /\ it_data (snd (iter_next t alt s)) = it_data s /\
+  iter_list t alt (snd (iter_next t alt s)) = Some (tl l).
+Proof.
+  intros Ok E. pose proof Ok as [Hl Hi].
+  pose proof (items_nth t alt s l O Ok E) as H0. rewrite Z.add_0_r in H0.
+  destruct (Z_lt_ge_dec (it_index s) (it_total t s)) as [L|L].
+  - destruct (nth_skips t alt s 0 l Ok (Z.le_refl 0) E) as (A & B & C & D & _).
+    assert (Q : iter_nth t alt s 0 = iter_next t alt s).
+    { unfold iter_nth. rewrite sat_add_small.
+      - rewrite Z.add_0_r. destruct s; reflexivity.
+      - pose proof (total_bounds t (buf_len (it_data s)) (buf_len_nonneg _)). unfold len_ok, it_total in *. lia. }
+    rewrite Q in *. change (Z.to_nat 0) with O in *. destruct l; cbn [nth_error hd_error skipn tl] in *;
+      (split; [exact A|split; [exact B|split; [exact C|exact D]]]).
+  - rewrite iter_next_oob by lia. cbn [fst snd].
+    destruct (iter_is_loads t alt s Ok) as (l' & E' & _ & Len).
+    rewrite E in E'. inversion E'; subst l'. destruct l; [|cbn [length] in Len; lia].
+    cbn [hd_error tl]. split; [reflexivity|split; [exact Ok|split; [reflexivity|exact E]]].
+Qed.
+
+(* the iterator of a whole slice *)
+Lemma iter_new_ok buf : len_ok buf -> it_ok (iter_new buf).
+Proof. intros H. split; cbn; auto. lia. Qed.
+
+(* ---- any mix of next() / nth(k), with size_hint observed after every call ------------------------------- *)
+Inductive itop := OpNext | OpNth (n : Z).
+Definition op_ok (o : itop) : Prop := match o with OpNext => True | OpNth n => 0 <= n end.
+Definition iter_step (t : rawty) (alt : order) (s : iter) (o : itop) : option Z * iter :=
+  match o with OpNext => iter_next t alt s | OpNth n => iter_nth t alt s n end.
+Fixpoint iter_run (t : rawty) (alt : order) (s : iter) (ops : list itop) : list (option Z * (Z * option Z)) :=
+  match ops with
+  | [] => []
+  | o :: r => let xs := iter_step t alt s o in (fst xs, size_hint t (snd xs)) :: iter_run t alt (snd xs) r
+  end.
+(* the same calls on a plain list of items *)
+Definition list_step (l : list Z) (o : itop) : option Z * list Z :=
+  match o with
+  | OpNext => (hd_error l, tl l)
+  | OpNth n => (nth_error l (Z.to_nat n), skipn (Datatypes.S (Z.to_nat n)) l)
+  end.
+Fixpoint list_run (l : list Z) (ops : list itop) : list (option Z * (Z * option Z)) :=
+  match ops with
+  | [] => []
+  | o :: r => let xl := list_step l o in
+              (fst xl, (Z.of_nat (length (snd xl)), Some (Z.of_nat (length (snd xl))))) :: list_run (snd xl) r
+  end.
+
+Lemma iter_run_spec t alt ops : forall s l,
+  it_ok s -> iter_list t alt s = Some l -> Forall op_ok ops -> iter_run t alt s ops = list_run l ops.
+Proof.
+  induction ops as [|o r IH]; intros s l Ok E F; [reflexivity|].
+  inversion F as [|? ? Ho Fr]; subst. cbn [iter_run list_run].
+  destruct o as [|n]; cbn [iter_step list_step fst snd].
+  - destruct (next_steps t alt s l Ok E) as (A & B & C & D).
+    rewrite A, (size_hint_exact t alt _ _ B D). f_equal. apply IH; auto.
+  - destruct (nth_skips t alt s n l Ok Ho E) as (A & B & C & D & _).
+    rewrite A, (size_hint_exact t alt _ _ B D). f_equal. apply IH; auto.
+Qed.
